@@ -85,9 +85,11 @@ func (m *c03model) resolve(rel string) uint64 {
 func (m *c03model) claim(l uint64) (mustRefute bool) { return l > m.latestJoin }
 
 func c03leftPushPull(l uint64) []byte {
-	// MergeRemoteState derives the leave time as status time + 1
+	// MergeRemoteState derives the leave time as status time + 1. The node is not the only entry
+	// of the left list: another member (b: known to the node in the peer scenarios) comes before
+	// it and one (c: never known) after it, as in a real table
 	pp := serf.VMessagePushPull{LTime: 1, EventLTime: 1, QueryLTime: 1,
-		StatusLTimes: map[string]serf.LamportTime{"a": serf.LamportTime(l - 1)}, LeftMembers: []string{"a"}}
+		StatusLTimes: map[string]serf.LamportTime{"a": serf.LamportTime(l - 1), "b": 3, "c": 3}, LeftMembers: []string{"b", "a", "c"}}
 	return serf.VEncode(serf.VMsgPushPull, &pp)
 }
 
